@@ -300,6 +300,8 @@ pub fn run(args: &Args) {
         }
     }
     let thorough = args.str("tier", "quick") == "thorough";
+    // light: the interpreter (Miri, also as a big-endian host) executes a thinned-out value set
+    let light = cfg!(miri) || args.flag("light");
     // layout
     macro_rules! layout {
         ($W:ty, $N:ty, $name:expr) => {
@@ -332,6 +334,9 @@ pub fn run(args: &Args) {
     // 16-bit: exhaustive in every tier
     let mut n16 = 0u64;
     for v in 0..=u16::MAX {
+        if light && !(v % 509 == 0 || v.count_ones() <= 1 || (!v).count_ones() <= 1 || v.swap_bytes() == v) {
+            continue;
+        }
         for p in [v, v.swap_bytes(), v.wrapping_add(1), v.wrapping_sub(1), r.next() as u16] {
             if let Some(c) = chk_le16(v, p) {
                 report("Le16", c, v as u128, p as u128);
@@ -348,7 +353,7 @@ pub fn run(args: &Args) {
         out::key(&format!("16|{:02x}|{}", v >> 8, if v == v.swap_bytes() { "sym" } else { "asym" }), true);
     }
     out::eval(n16);
-    out::count("values16_exhaustive", 65536);
+    out::count(if light { "values16_thinned" } else { "values16_exhaustive" }, (n16 / 10) as i128);
 
     // 32-bit
     let n32 = AtomicU64::new(0);
@@ -369,7 +374,7 @@ pub fn run(args: &Args) {
             }
         }
     };
-    if thorough {
+    if thorough && !light {
         let threads = args.u64("threads", 16);
         std::thread::scope(|s| {
             for t in 0..threads {
@@ -393,7 +398,9 @@ pub fn run(args: &Args) {
     } else {
         // 2^24 structured: every value with a zero byte in one of the 4 positions is covered by
         // iterating 24 bits and inserting a varying byte at a rotating position; plus random.
-        for x in 0..(1u32 << 24) {
+        let bits = if light { 8 } else { 24 };
+        for x in 0..(1u32 << bits) {
+            let x = if light { x.wrapping_mul(0x0101_0101) ^ (x << 23) } else { x };
             let v = match x & 3 {
                 0 => x,                       // 00xxxxxx
                 1 => x.rotate_left(8) | 0xa5, // xxxxxx a5
@@ -402,14 +409,14 @@ pub fn run(args: &Args) {
             };
             check32(v, x);
         }
-        n32.fetch_add((1u64 << 24) * 8, Ordering::Relaxed);
-        let nr = args.u64("random32", 4_000_000);
+        n32.fetch_add((1u64 << bits) * 8, Ordering::Relaxed);
+        let nr = args.u64("random32", if light { 300 } else { 4_000_000 });
         for _ in 0..nr {
             let v = r.next() as u32;
             check32(v, r.next() as u32);
         }
         n32.fetch_add(nr * 8, Ordering::Relaxed);
-        out::count("values32_structured", 1i128 << 24);
+        out::count("values32_structured", 1i128 << bits);
         out::count("values32_random", nr as i128);
     }
     for (name, c, v, p) in fails32.lock().unwrap().iter() {
@@ -417,6 +424,9 @@ pub fn run(args: &Args) {
     }
     out::eval(n32.load(Ordering::Relaxed));
     for i in 0..4096u32 {
+        if light && i % 37 != 0 {
+            continue;
+        }
         let v = if i < 2048 { (r.next() as u32) >> (i % 32) } else { 1u32.rotate_left(i) ^ (i << 16) };
         mem_le32(&gm, v, (i as usize) % 29);
         mem_be32(&gm, v, (i as usize) % 29);
@@ -455,13 +465,16 @@ pub fn run(args: &Args) {
             mem_besize(&gm, v as usize, off);
         }
     };
-    for &v in &st {
+    for (k, &v) in st.iter().enumerate() {
+        if light && k % 61 != 0 && v.count_ones() > 1 {
+            continue;
+        }
         do64(v, &mut r, true);
         out::key(&format!("64|{}|{:02x}", pattern_class64(v), v as u8), true);
     }
     out::count("values64_structured", st.len() as i128);
-    let nr = args.u64("random64", if thorough { 300_000_000 } else { 5_000_000 });
-    if thorough {
+    let nr = args.u64("random64", if light { 200 } else if thorough { 300_000_000 } else { 5_000_000 });
+    if thorough && !light {
         // spread random 64-bit values over threads (checks are pure)
         let threads = args.u64("threads", 16);
         let fails: std::sync::Mutex<Vec<(&'static str, &'static str, u64, u64)>> = std::sync::Mutex::new(vec![]);
